@@ -324,8 +324,11 @@ class RedshiftBinningFactory:
             def comov_func(z):
                 return self.cosmology.comoving_distance(z) * units.Mpc
 
-        edges = z_at_value(comov_func, comov_edges).value
-        edges[0], edges[-1] = min, max  # numerical inversion is not exact
+        # outer edges are known, numerical inversion is not exact (and fails for z=0)
+        edges = np.empty(num_bins + 1)
+        edges[0], edges[-1] = min, max
+        if num_bins > 1:
+            edges[1:-1] = z_at_value(comov_func, comov_edges[1:-1]).value
         return Binning(edges, closed=closed)
 
     def logspace(
